@@ -302,9 +302,13 @@ parse_next_record_header:
         decryptTo = pb.buf.start; /* In-situ decryption. */
         if (ssl->decrypt(ssl, pb.buf.start, decryptTo, ssl->rec.len) < 0)
         {
+            /* A record too short to hold a content type and a tag is not
+               early data, and its "length" below would wrap around and
+               shrink the running total the limit is compared with. */
             if (MATRIX_IS_SERVER(ssl) &&
                     ssl->tls13ServerEarlyDataEnabled == PS_FALSE &&
-                    ssl->extFlags.got_early_data == 1)
+                    ssl->extFlags.got_early_data == 1 &&
+                    ssl->rec.len > AEAD_TAG_LEN(ssl))
             {
                 /* If server does not accept early_data then ignore decrypt errors
                    to up-to configured ssl->tls13SessionMaxEarlyData bytes.
